@@ -1301,7 +1301,8 @@ class SelectorWorld:
         # (recomputed when the caller has refilled the arrays since: the reference run must
         # see the values the object's fits see)
         try:
-            key = (op["X"], self.heap.entries[op["X"]]["snap"], self.heap.entries[op["y"]]["snap"] if op.get("y") else None)
+            key = (op["X"], self.heap.entries[op["X"]]["snap"], self.heap.entries[op["y"]]["snap"] if op.get("y") else None,
+                   repr(sorted((k, repr(v)) for k, v in m["resolved"].items() if k not in ("n_to_select", "score_threshold", "score_threshold_type"))))
         except KeyError:
             key = None
         if m.get("final_done") and m.get("final_key") == key:
